@@ -29,6 +29,9 @@ Inductive instr :=
 | Cvt (c : cvtop)
 | CallPow (t : ty)               (* call of the import math.pow_<t> *)
 | If (bt : option vt) (th : list instr) (el : option (list instr))
+| Block (body : list instr)      (* block (empty type) … end *)
+| Loop (body : list instr)       (* loop (empty type) … end *)
+| Br (n : nat) | BrIf (n : nat)
 | Return | Unreachable.
 
 Definition iw_eqb (a b : iw) := match a, b with W32, W32 | W64, W64 => true | _, _ => false end.
@@ -136,6 +139,14 @@ Section Encode.
         | Some e => 5 :: (fix go (l : list instr) : list Z :=
                             match l with [] => [] | x :: r => enc_i x ++ go r end) e
         end ++ [11]
+    | Block body =>
+        2 :: 64 :: (fix go (l : list instr) : list Z :=
+                      match l with [] => [] | x :: r => enc_i x ++ go r end) body ++ [11]
+    | Loop body =>
+        3 :: 64 :: (fix go (l : list instr) : list Z :=
+                      match l with [] => [] | x :: r => enc_i x ++ go r end) body ++ [11]
+    | Br n => 12 :: uleb 10 (Z.of_nat n)
+    | BrIf n => 13 :: uleb 10 (Z.of_nat n)
     | Return => [15]
     | Unreachable => [0]
     end.
@@ -171,6 +182,9 @@ Fixpoint imports_i (i : instr) (acc : list ty) : list ty :=
                   match l with [] => acc | x :: r => go r (imports_i x acc) end in
       let a1 := go th acc in
       match el with None => a1 | Some e => go e a1 end
+  | Block body | Loop body =>
+      (fix go (l : list instr) (acc : list ty) : list ty :=
+         match l with [] => acc | x :: r => go r (imports_i x acc) end) body acc
   | _ => acc
   end.
 Definition imports_l (l : list instr) : list ty := fold_left (fun a i => imports_i i a) l [].
@@ -250,6 +264,19 @@ Section Validate.
             then Some (match bt with None => s1 | Some t => vpush t s1 end)
             else None
         end
+    | Block body | Loop body =>
+        let go := fix go (l : list instr) (s : vstack) : option vstack :=
+                    match l with
+                    | [] => Some s
+                    | x :: r => match val_i x s with Some s' => go r s' | None => None end
+                    end in
+        match go body ([], false) with
+        | Some s' => if vend None s' then Some s else None
+        | None => None
+        end
+    (* label bounds are not checked here (an out-of-range label makes wazero reject the module) *)
+    | Br _ => Some ([], true)
+    | BrIf _ => vpop (VTI W32) s
     | Return => match vpop ret s with Some _ => Some ([], true) | None => None end
     | Unreachable => Some ([], true)
     end.
@@ -279,7 +306,11 @@ Section Exec.
   | ONorm (st : list wval) (ls : list wval)
   | ORet (v : wval)
   | OTrap (k : trap)
+  | OBr (n : nat) (ls : list wval)   (* branching to the n-th enclosing label *)
+  | OFuel                            (* a loop ran for more than [wasm_fuel] iterations *)
   | OStuck.                       (* ill-typed code: excluded by validation *)
+
+  Definition wasm_fuel : nat := 3100.
 
   Definition ibin_sem (w : iw) (op : ibin) (a b : Z) : trap + Z :=
     let m := wmod w in
@@ -443,8 +474,51 @@ Section Exec.
                 | None => ONorm st' ls1
                 | Some _ => match st1 with v :: _ => ONorm (v :: st') ls1 | [] => OStuck end
                 end
+            | OBr O ls1 => match bt with None => ONorm st' ls1 | Some _ => OStuck end
+            | OBr (S n) ls1 => OBr n ls1
             | o => o
             end
+        | _ => OStuck
+        end
+    | Block body =>
+        let go := fix go (l : list instr) (st ls : list wval) : outcome :=
+                    match l with
+                    | [] => ONorm st ls
+                    | x :: r => match exec_i x st ls with
+                                | ONorm st1 ls1 => go r st1 ls1
+                                | o => o
+                                end
+                    end in
+        match go body [] ls with
+        | ONorm _ ls1 => ONorm st ls1
+        | OBr O ls1 => ONorm st ls1
+        | OBr (S n) ls1 => OBr n ls1
+        | o => o
+        end
+    | Loop body =>
+        let go := fix go (l : list instr) (st ls : list wval) : outcome :=
+                    match l with
+                    | [] => ONorm st ls
+                    | x :: r => match exec_i x st ls with
+                                | ONorm st1 ls1 => go r st1 ls1
+                                | o => o
+                                end
+                    end in
+        (fix lp (k : nat) (ls : list wval) : outcome :=
+           match k with
+           | O => OFuel
+           | S k' =>
+               match go body [] ls with
+               | ONorm _ ls1 => ONorm st ls1
+               | OBr O ls1 => lp k' ls1          (* branch to the loop label: next iteration *)
+               | OBr (S n) ls1 => OBr n ls1
+               | o => o
+               end
+           end) wasm_fuel ls
+    | Br n => OBr n ls
+    | BrIf n =>
+        match st with
+        | WI W32 c :: st' => if c =? 0 then ONorm st' ls else OBr n ls
         | _ => OStuck
         end
     | Return => match st with v :: _ => ORet v | [] => OStuck end
@@ -463,7 +537,7 @@ Section Exec.
   Definition zero_w (t : vt) : wval :=
     match t with VTI w => WI w 0 | VTF t => WF t (f_of_bits fo t 0) end.
 
-  Inductive wres := WOk (v : wval) | WTrap (k : trap) | WStuck.
+  Inductive wres := WOk (v : wval) | WTrap (k : trap) | WFuel | WStuck.
 
   (* invoking the function: locals = arguments ++ zero-initialised declared locals; the value
      of [return], or the value left on the stack at the end of the body *)
@@ -473,10 +547,13 @@ Section Exec.
     | ONorm [] _ => WStuck
     | ORet v => WOk v
     | OTrap k => WTrap k
+    | OBr _ _ => WStuck
+    | OFuel => WFuel
     | OStuck => WStuck
     end.
 End Exec.
 
 Arguments WI {fo}. Arguments WF {fo}.
 Arguments ONorm {fo}. Arguments ORet {fo}. Arguments OTrap {fo}. Arguments OStuck {fo}.
-Arguments WOk {fo}. Arguments WTrap {fo}. Arguments WStuck {fo}.
+Arguments OBr {fo}. Arguments OFuel {fo}.
+Arguments WOk {fo}. Arguments WTrap {fo}. Arguments WStuck {fo}. Arguments WFuel {fo}.
